@@ -75,7 +75,7 @@ theorem sg_init_sinv {s s3 : St} (w : WFS s) (hbin : binned s.h = []) {tbase tsi
     rw [hbinned, htop, hdv, if_neg (by omega)]; rfl
   have hfr : ∀ a ∈ binned s.h, findEnt s3.h.ents a = findEnt s.h.ents a := by
     intro a ha; rw [hbin] at ha; cases ha
-  refine ⟨⟨?_, ?_, ?_, ?_, ?_, ?_, ?_, ?_, ?_, ?_, ?_⟩, ?_, ?_, ?_, ?_⟩
+  refine ⟨⟨?_, ?_, ?_, ?_, ?_, ?_, ?_, ?_, ?_, ?_, ?_⟩, ?_, ?_, ?_, ?_, ?_⟩
   · rw [hents]; simp only [entsOk, Bool.and_eq_true, decide_eq_true_eq]; omega
   · rw [hents]
     simp only [shapeOk, List.all_cons, List.all_nil, Bool.and_true, Bool.and_eq_true, Bool.or_eq_true,
@@ -143,6 +143,9 @@ theorem sg_init_sinv {s s3 : St} (w : WFS s) (hbin : binned s.h = []) {tbase tsi
     rw [hents] at he
     simp only [List.mem_cons, List.not_mem_nil, or_false] at he
     rcases he with rfl | rfl <;> simp only at h8 <;> omega
+  · intro g hg hne
+    rw [hsegs, List.mem_singleton] at hg
+    subst hg; exact absurd rfl hne
 
 /-- the state `sys_alloc_place` runs on: `s` after `popM` and the footprint update -/
 def SgPlace (s s0 : St) : Prop :=
